@@ -39,6 +39,14 @@ func (p *Params) Verify(input VerifierInput) error {
 	proof := input.Proof
 	root := input.MerkleRoot
 
+	// shape of the proof
+	if len(proof.UAlpha) != p.SizeCodeWord() {
+		return errors.New("invalid proof: uAlpha does not have the size of a codeword")
+	}
+	if len(proof.OpenedColumns) != len(input.SelectedColumns) || len(proof.MerkleProofOpenedColumns) != len(input.SelectedColumns) {
+		return errors.New("invalid proof: the number of opened columns does not match the number of selected columns")
+	}
+
 	// This checks the consistency between uAlpha and the claimed value
 	uAlphaAtX, err := EvalFextPolyLagrange(input.Proof.UAlpha, input.EvaluationPoint)
 	claimsAtAlpha := EvalFextPolyHorner(input.ClaimedValues, input.Alpha)
@@ -59,6 +67,15 @@ func (p *Params) Verify(input VerifierInput) error {
 	// This checks the consistency between the proof and the selected columns
 	// to the input matrix.
 	for i, c := range input.SelectedColumns {
+
+		if c < 0 || c >= len(proof.UAlpha) {
+			return errors.New("invalid proof: selected column out of range")
+		}
+
+		// the opened column must be consistent with the linear combination: sum_j alpha^j col[j] = uAlpha[c]
+		if colAtAlpha := EvalBasePolyHorner(proof.OpenedColumns[i], input.Alpha); colAtAlpha != proof.UAlpha[c] {
+			return errors.New("invalid proof: the opened column is inconsistent with uAlpha")
+		}
 
 		sisHash := make([]koalabear.Element, p.Key.Degree)
 		if err := p.Key.Hash(proof.OpenedColumns[i], sisHash); err != nil {
